@@ -16,6 +16,8 @@ CLAIMS = {
          "FNV half decided: all 4096 table entries equal the 6-bit FNV-1 step, initial value, the step function reads exactly that table with ch%64 (or the arithmetic variant), only that function writes the state; slice/iterator/+= forms of both primitives are folds of the single-byte form over the whole input. The rolling hash's window-only dependence is NOT decided.", "§3.1, §3.13, §4 C19"),
  "C20": ("exhaustive table checks on rustc-evaluated constants; predicates as difference constraints; exact guards; formula-tree match on MIR",
          "Tables (31 size strings, de Bruijn pair) exhaustively; is_log_valid/is_valid shapes; the four relation predicates and compare_sizes as difference constraints equal the definition; capping border dispatch; cap and raw-score formula trees equal the documented formulas and are reached only in their asserted domain. Value-range facts (1..=100) are not decided.", "§3.1, §3.3, §3.8, §4 C20"),
+ "C04": ("panic-edge audit over the resolved call graph (MIR Assert/Index/unwrap edges with automatic and reviewed discharges, who-may-call and bounded-input side conditions) + error-path purity + dominance rule on error origins",
+         "Totality of parsing is decided as: every panic edge reachable from the six generic parse entry points in release-like configurations is discharged or reviewed with a structural side condition (the RLE encoder is callable only from the bounded compressor); the caller's index is written only on the way to Ok; error origins follow the parser phase; stored symbols come from the exact reverse table under the not-INVALID guard into fresh objects. That the accepted language equals the grammar is NOT decided.", "§3.10, §3.4, §4 C04"),
 }
 NA = {
  "C01": "byte-exact agreement with the ssdeep CTPH algorithm is numeric over all inputs (piece boundaries, FNV folding, fork/elimination); no necessary condition is visible in code shape beyond those checked under C11/C12/C13/C14/C19; static analysis cannot decide it",
